@@ -305,72 +305,10 @@ def _edge_problems(edges, ndim):
 
 
 def rdm_rule(chk, src):
-    chk.rule("rdm-network", "one- and two-site RDM chains: bra bonds meet conjugated tensors, ket bonds plain tensors, traced physical axes pair a site with its own conjugate, "
-             "the bridging step is a loop invariant, and both RDMs are indexed (ket indices, bra indices) as documented: rho[a, b] = <a|rho|b>", 8)
-    f1 = src.func(MPS, "Mps.calc_1site_rdm")
-    f2 = src.func(MPS, "Mps.calc_2site_rdm")
-    loops2 = [s for s in f2.node.body if isinstance(s, ast.For)]
-    loop1 = [s for s in f1.node.body if isinstance(s, ast.For)]
-    if len(loops2) != 2 or len(loop1) != 1:
-        raise AnalysisError("calc_1site_rdm / calc_2site_rdm: loop structure changed")
-    conv = {}
-    for ndim in (3, 4):
-        site = [("s", k) for k in range(ndim)]
-        # ---- one site
-        tr = CTracker({"ms": site, "<site>": site})
-        sink = {}
-        _run_block(tr, loop1[0].body, ndim, sink)
-        out = sink.get("rdm", [None])[-1]
-        pr = _edge_problems(tr.edges, ndim)
-        want = [("s", 1), ("s*", 1)]
-        ok = not pr and out == want and len(tr.edges) == 2 + 2 + (ndim - 3)
-        conv[("1site", ndim)] = [l[0].endswith("*") for l in (out or [])]
-        chk.ob("rdm-network", f"calc_1site_rdm [rank {ndim}]", ok, f1.where, pr[:2] or {"output": out, "contractions": len(tr.edges)}, {"output": want, "contractions": 4 + ndim - 3}, line=f1.node.lineno,
-               detail="1-site RDM: " + (pr[0] if pr else "output legs are not (plain physical, conjugated physical): rho[a, b] = <a|rho|b> = sum psi[a..] conj(psi[b..])") + " - the result is the transpose (complex conjugate) / a wrong partial trace for complex states")
-        # ---- two site: components
-        tr = CTracker({"ms": site, "<site>": site})
-        sink = {}
-        _run_block(tr, loops2[0].body, ndim, sink)
-        pr = _edge_problems(tr.edges, ndim)
-        L, R = sink.get("L_component", [None])[-1], sink.get("R_component", [None])[-1]
-        last = ndim - 1
-        wantL, wantR = [("s*", 1), ("s", 1), ("s*", last), ("s", last)], [("s*", 0), ("s", 0), ("s*", 1), ("s", 1)]
-        chk.ob("rdm-network", f"calc_2site_rdm components [rank {ndim}]", not pr and L == wantL and R == wantR, f2.where, pr[:2] or {"L": L, "R": R}, {"L": wantL, "R": wantR}, line=loops2[0].lineno,
-               detail="left/right blocks of the 2-site RDM: " + (pr[0] if pr else "axes are not (conj phys, phys, conj bond, bond) / (conj bond, bond, conj phys, phys)"))
-        if L != wantL or R != wantR:
-            continue
-        # ---- bridging step and closing contraction
-        inner = [s for s in ast.walk(loops2[1]) if isinstance(s, ast.For) and s is not loops2[1]]
-        if len(inner) != 1:
-            raise AnalysisError("calc_2site_rdm: inner loop over the second site not found")
-        bridge = [s for s in inner[0].body if isinstance(s, ast.If)]
-        rest = [s for s in inner[0].body if not isinstance(s, ast.If)]
-        if len(bridge) != 1:
-            raise AnalysisError("calc_2site_rdm: bridging block not found")
-        ren = lambda legs, to: [(l[0].replace("s", to), l[1]) for l in legs]
-        k_site = [("k", x) for x in range(ndim)]
-        tr = CTracker({"tensor": ren(L, "i"), "<site>": k_site, "ms": k_site})
-        _run_block(tr, bridge[0].body, ndim, {})
-        pr = _edge_problems(tr.edges, ndim)
-        got = tr.env["tensor"]
-        want = [("i*", 1), ("i", 1), ("k*", last), ("k", last)]
-        chk.ob("rdm-network", f"calc_2site_rdm bridging step [rank {ndim}]", not pr and got == want, f2.where, pr[:2] or got, want, line=bridge[0].lineno,
-               detail="the transfer through an intermediate site must contract the bra bond with the conjugated site tensor and the ket bond with the plain one, trace its physical "
-                      "index, and return the block in the same axis order (loop invariant): " + (pr[0] if pr else "axis order changed") +
-                      " - only pairs of non-adjacent sites of complex states are affected")
-        tr = CTracker({"tensor": ren(L, "i"), "R_component[jms]": ren(R, "j"), "<site>": k_site})
-        sink = {}
-        _run_block(tr, rest, ndim, sink)
-        pr = _edge_problems(tr.edges, ndim)
-        out = sink.get("rdm", [None])[-1]
-        want = [("i", 1), ("j", 1), ("i*", 1), ("j*", 1)]
-        conv[("2site", ndim)] = [l[0].endswith("*") for l in (out or [])]
-        chk.ob("rdm-network", f"calc_2site_rdm closing contraction [rank {ndim}]", not pr and out == want, f2.where, pr[:2] or out, want, line=inner[0].lineno,
-               detail="closing: (conj bond, bond) of the left block with (conj bond, bond) of the right block; rows = plain (ket) indices (i, j), columns = conjugated (bra) indices (i, j): "
-                      "rho[ab, cd] = <ab|rho|cd> as documented")
-    ok = all(conv.get(("1site", n)) == [False, True] and conv.get(("2site", n)) == [False, False, True, True] for n in (3, 4))
-    chk.ob("rdm-network", "1-site and 2-site RDM use the documented index convention (ket indices, bra indices)", ok, f2.where, {f"{k[0]}/{k[1]}": v for k, v in conv.items()}, "plain (ket) indices first in both", line=f2.node.lineno)
-
+    chk.rule("rdm-network", "one- and two-site RDM chains (abstract run on abstract tensors): closed <Psi|..|Psi> networks with the requested physical indices open, bra bonds on conjugated "
+             "tensors, every other physical / ancilla index traced with its own conjugate, indexed (ket indices, bra indices) as documented: rho[a, b] = <a|rho|b>", 4)
+    from .chain_rules import rdm_rule as _rdm
+    _rdm(chk, src, "rdm-network")
 
 
 # ------------------------------------------------------------------------------------------ cached observable operators, electronic RDM, entropy formula
